@@ -281,11 +281,11 @@ func Respell(t *rapid.T, p *Prog) RespellInfo {
 			aliasFile[user] = f
 			user.Files = append(user.Files, f)
 		}
-		a := &TypeDecl{ID: p.NewID(), Name: fmt.Sprintf("Al%s%d", td.Name, len(f.Decls)), Pkg: user, Kind: td.Kind, AliasOf: &TypeRef{Type: td}}
+		a := &TypeDecl{ID: p.NewID(), Name: fmt.Sprintf("Al%s_%d", td.Name, len(f.Decls)), Pkg: user, Kind: td.Kind, AliasOf: &TypeRef{Type: td}}
 		f.Decls = append(f.Decls, a)
 		if rapid.IntRange(0, 9).Draw(t, "aliasChain") < 3 {
 			// an alias of the alias: type AlAlT = AlT
-			b := &TypeDecl{ID: p.NewID(), Name: fmt.Sprintf("AlAl%s%d", td.Name, len(f.Decls)), Pkg: user, Kind: td.Kind, AliasOf: &TypeRef{Type: td, Via: a}}
+			b := &TypeDecl{ID: p.NewID(), Name: fmt.Sprintf("AlAl%s_%d", td.Name, len(f.Decls)), Pkg: user, Kind: td.Kind, AliasOf: &TypeRef{Type: td, Via: a}}
 			f.Decls = append(f.Decls, b)
 			a = b
 			info.AliasChain++
@@ -314,10 +314,10 @@ func Respell(t *rapid.T, p *Prog) RespellInfo {
 			p.Pkgs = np
 		}
 		f := tp.Files[0]
-		a := &TypeDecl{ID: p.NewID(), Name: fmt.Sprintf("Al%s%d", td.Name, len(f.Decls)), Pkg: tp, Kind: td.Kind, AliasOf: &TypeRef{Type: td}}
+		a := &TypeDecl{ID: p.NewID(), Name: fmt.Sprintf("Al%s_%d", td.Name, len(f.Decls)), Pkg: tp, Kind: td.Kind, AliasOf: &TypeRef{Type: td}}
 		f.Decls = append(f.Decls, a)
 		if rapid.IntRange(0, 9).Draw(t, "thirdAliasChain") < 3 {
-			b := &TypeDecl{ID: p.NewID(), Name: fmt.Sprintf("AlAl%s%d", td.Name, len(f.Decls)), Pkg: tp, Kind: td.Kind, AliasOf: &TypeRef{Type: td, Via: a}}
+			b := &TypeDecl{ID: p.NewID(), Name: fmt.Sprintf("AlAl%s_%d", td.Name, len(f.Decls)), Pkg: tp, Kind: td.Kind, AliasOf: &TypeRef{Type: td, Via: a}}
 			f.Decls = append(f.Decls, b)
 			a = b
 			info.AliasChain++
